@@ -93,6 +93,21 @@ def run(R, only=None):
         R.correspondence_broken("C01 translator reading = compiled rule objects", pr)
     if info.get("unknown_conditions"):
         R.correspondence_broken("C01 side conditions understood by the translator", f"rules with conditions the translator does not know: {info['unknown_conditions']}")
+    # the rules whose obligations were proved are pinned (checks/c01_rules_expected.json): a rule that drops out of the model (a side
+    # condition the translator cannot read, an operator without a meaning) is an obligation that no longer checks, not a smaller theorem
+    exp_path = os.path.join(VERIF, "checks", "c01_rules_expected.json")
+    if os.environ.get("VERIF_WRITE_EXPECTED") == "1":
+        json.dump({k: sorted(info.get(k, [])) for k in ("expr_sound", "plan_sound", "plan_instances_sound")}, open(exp_path, "w"), indent=1)
+    expected = json.load(open(exp_path))
+    src_all = {r[1]: r for r in TR.parse_source()}
+    for k in ("expr_sound", "plan_sound", "plan_instances_sound"):
+        have = set(info.get(k, [])) | set(info.get("expr_refuted", {})) | set(info.get("plan_refuted", {}))
+        for name in expected.get(k, []):
+            if name not in have and not info.get("problems"):
+                r = src_all.get(name.split(" @ ")[0])
+                now = f"{' '.join(r[2].split())} => {' '.join((r[3] or '<applier>').split())} if {r[4]}" if r else "no such rule in the source"
+                R.correspondence_broken(f"C01 obligation of rule `{name}` ({k})", f"the rule was proved sound in the model; as the source reads now ({now}) it has no obligation "
+                                        "any more (a side condition or operator the translator gives no meaning to)")
     kf = [f for f in known_findings("C01") if f.get("class") == "KF_C01_null_unsound_expr_rules"]
     allowed = set(kf[0].get("rules", [])) if kf else set()
     src = {r[1]: r for r in TR.parse_source()}
@@ -223,6 +238,11 @@ def run(R, only=None):
                 ("select x, y from (select x, y from (select x, y from a where x > 0) u where y > 0) t where x < 3", None, {"plan-rule"}),
                 ("select x, y from (select x, y from a order by y, x) t where x > 1", None, {"plan-rule"}),
                 ("select a.x, b.z, c.z from a join b on a.x = b.x join b c on b.z = c.z where a.y > 0", None, {"join", "plan-rule"}),
+                # several equality conjuncts (the 2- / 3-key hash-join rules), one of them reading both inputs on one side
+                ("select a.x, b.z from a join b on a.x = b.x and a.y = b.z and a.x = a.y + b.z", None, {"join", "plan-rule"}),
+                ("select a.x, b.z from a left join b on a.x = b.x and a.y = b.z and a.x + b.x = b.z", None, {"join", "left", "plan-rule"}),
+                ("select a.x, b.z from a join b on a.x = b.x and a.x * b.z = a.y", None, {"join", "plan-rule"}),
+                ("select a.x, b.z from a join b on a.x = b.x and a.y = b.z and a.x + a.y = b.x + b.z", None, {"join", "plan-rule"}),
             ])
         engine = R.rng.choice(["mem", "disk"])
         steps = [{"sql": "create table a(x int, y int, s varchar)"}, {"sql": "create table b(x int, z int)"}]
@@ -396,9 +416,9 @@ def run(R, only=None):
     })
     R.coverage["trusted_base"].append("tools/translate_rules.py (regex reading of rw!(..) and of the pushdown(..) helper; its reading of names and patterns is "
                                       "compared with the compiled rule objects on every run; its reading of the side conditions is trusted)")
-    R.assumptions += ["21 plan rewrite rules (plus 7 join-type instances) have Coq obligations under the bag semantics of Model/PlanSem.v (15 + 7 proved sound for "
-                      "every binding, 6 refuted); the other plan rules (projection pushdown, hash-join swap, hash / merge join selection, sub-query un-nesting, "
-                      "index scans, order and range rules) are not proved: they are covered by the end-to-end differential and, for buildability, by C17's theorems; "
+    R.assumptions += ["31 plan rewrite rules (plus 7 join-type instances) have Coq obligations under the bag semantics of Model/PlanSem.v (25 + 7 proved sound for "
+                      "every binding, incl. the ten rules that turn an equi-join into a hash join, back, and swap its inputs; 6 refuted); the other plan rules "
+                      "(projection pushdown, merge join selection, sub-query un-nesting, index scans, order and range rules) are not proved: they are covered by the end-to-end differential and, for buildability, by C17's theorems; "
                       "the side condition not_depend_on is read as: the columns the expression mentions are disjoint from the plan's schema; "
                       "egg's saturation and extraction are trusted to return a member of the rewrite closure", "soundness is modulo evaluation errors and ill-typed "
                       "instances (C14 / C16); floats, decimals, strings and dates are outside the rule theorems' value domain"]
